@@ -143,7 +143,7 @@ def check(w, tier, t0):
         if case["kind"] == "schedule":
             rows = replay_scheds(vh, dd, "r", [case])
         elif case["kind"] == "storm":
-            rows, _ = storm(vh, dd, "r", 300, 1, plan=case)
+            rows, _ = storm(vh, dd, "r", 60, 1, plan=case)
         else:
             _, rc_ = storm(lib.build_harness(race=True), dd, "r", 600, 1, race=True)
             return tuple(case["functions"]) in set(rc_)
@@ -180,7 +180,7 @@ def replay(w, path):
             return 1
         print("no violation")
         return 0
-    rows = replay_scheds(vh, d, "r", [case]) if case["kind"] == "schedule" else storm(vh, d, "r", 300, 1, plan=case)[0]
+    rows = replay_scheds(vh, d, "r", [case]) if case["kind"] == "schedule" else storm(vh, d, "r", 60, 1, plan=case)[0]
     v, _, _ = validate(w, "R", rows)
     bad = [b for b in v["bad"] if signature(b) is None]
     if bad:
